@@ -41,6 +41,10 @@ def check_primitives(ctx, r, n):
             ctx.disagree("T2:pyrt." + op["f"], f"PyRt.{op['f']} on {op}: model {mo.get('r')!r} vs CPython {w!r}", {"op": op})
 
 
+class Skip(Exception):
+    pass
+
+
 def _resolve(qual_file, qual):
     mod = importlib.import_module(qual_file[:-3].replace("/", "."))
     obj = mod
@@ -58,6 +62,9 @@ POOLS = {
     "get_subsequent_line_indentation_level": [[x] for x in LIST_POOL],
     "fix_whitespace": [["a  \n\n\n\nclass B:\n    x = 1  \n\n\n    def f(self):\n        pass\n\n\n"], [""], ["x"], ["\n\n"], ["a \t\nb"], ["import os\n\n\n\n\n@dec\ndef f():\n    pass"],
                        ["class A:\n    def f(self):\n        pass\n    \n    \n    def g(self):\n        pass\n"], ["a\n\n\n    # c\n    _x = 1\n"]],
+    "to_camel_case": [["foo_bar"], ["FooBar"], ["foo-bar"], ["_foo"], ["foo__bar"], ["HTTPServer_id"], [""], ["a_b_c"], ["x-"], ["get2FA"]],
+    "fix_name_segment": [["class"], ["name"], ["import"], ["license"], [""], ["class_"], ["Class"]],
+    "fix_field_path": [["book.class"], ["class.name"], ["import.from.x"], ["a"], [""], ["a..b"], [".class"], ["type.type"]],
     "make_private": [["a"], ["_a"], [""], ["__a"], ["A_b"]],
     "coerce_response_name": [["$resp"], ["$resp.name"], ["x.$resp"], ["$resp$resp"], ["resp"], [""]],
     "address_resolve": [[pk, sel] for pk in ([], ["acme"], ["acme", "lib", "v1"]) for sel in ("Book", "a.Book", ".Book", "", ".", "Outer.Inner", "Book.")],
@@ -70,6 +77,9 @@ GENS = {
     "is_list_item": lambda r: [rand_str(r, 6)],
     "get_subsequent_line_indentation_level": lambda r: [rand_str(r, 6)],
     "fix_whitespace": lambda r: ["".join(r.pick(["a", " ", "  ", "\n", "\n\n", "class X:", "def f():", "    ", "        ", "@d", "# c", "_y = 1", "pass", "\t", "x = 1"]) for _ in range(r.randint(0, 14)))],
+    "to_camel_case": lambda r: ["".join(r.pick(["foo", "Bar", "_", "-", "ID", "x", "2", "HTTP", "__"]) for _ in range(r.randint(0, 5)))],
+    "fix_name_segment": lambda r: [r.pick(["class", "type", "format", "book", "from", "in", "id", "x"]) + r.pick(["", "", "_", "s"])],
+    "fix_field_path": lambda r: [".".join(r.pick(["class", "type", "format", "book", "from", "name", "x", "license"]) for _ in range(r.randint(1, 4)))],
     "make_private": lambda r: [rand_str(r, 5, ws=False)],
     "coerce_response_name": lambda r: ["".join(r.pick(["$resp", ".", "a", "$", "resp", "_"]) for _ in range(r.randint(0, 5)))],
     "address_resolve": lambda r: [[r.pick(["acme", "lib", "v1", "a", "x_y"]) for _ in range(r.randint(0, 3))], rand_str(r, 6, ws=False)],
@@ -77,6 +87,13 @@ GENS = {
 
 
 def call_real(name, meta, args):
+    if name in ("fix_name_segment", "fix_field_path"):
+        # nested helpers of convert_uri_fieldnames: reached through the public function on a uri whose only variable is the argument
+        from gapic.utils.uri_conv import convert_uri_fieldnames
+        if not args[0] or any(ch in args[0] for ch in "{}=/*") or (name == "fix_name_segment" and "." in args[0]) or not all(seg.isidentifier() for seg in args[0].split(".")):
+            raise Skip()
+        out = convert_uri_fieldnames("/v1/{%s=things/*}" % args[0])
+        return out[len("/v1/{"):-len("=things/*}")]
     f = _resolve(meta["file"], meta["qual"])
     if name == "address_resolve":
         from gapic.schema import metadata
@@ -99,6 +116,9 @@ def check_functions(ctx, names, n):
                 continue
             try:
                 want = call_real(name, {"file": meta.get("file", ""), "qual": meta.get("qual", name)}, args)
+            except Skip:
+                ctx.count("pyrt_unsupported", "not reachable through the public function")
+                continue
             except Exception as e:
                 want = {"raised": type(e).__name__}
             ops.append({"op": "fn", "name": name, "args": args}); metas.append((name, args, want))
